@@ -75,7 +75,8 @@ class CoreEmitter:
                 self.file_manager.write_file(dst, content)
                 generated_files.append(dst)
             except FileNotFoundError:
-                print(f"Warning: Could not find runtime file {filename} in module {module}. Skipping.")
+                print(f"Error: Could not find runtime file {filename} in module {module}.")
+                raise
 
         # Always create __init__.py files for core and subfolders within the actual core dir
         core_init_path = os.path.join(actual_core_dir, "__init__.py")
